@@ -506,6 +506,35 @@ def run_threads(ctx, rounds):
                 ctx.violation("foreign-exception-escaped-under-threads:%s" % e["error"].split(":")[0], {"kind": "threads"}, e)
             if errors:
                 return
+    # queries whose filters use hundreds of distinct regular expressions taken from the document (more than any pattern cache
+    # holds), evaluated by 8 threads at once through one environment: matches or JSONPath errors, nothing else, and the
+    # right matches
+    for _round in range(max(2, rounds // 4)):
+        errors = []
+        queries = [jsonpath.compile(t) for t in ("$[?match(@.s, @.p)]", "$[?search(@.s, @.p)]", "$[?@.s =~ /t[0-9]+r.*/ && match(@.s, @.p)]", "$[?!search(@.s, @.q)]")]
+
+        def worker2(wid, rr):
+            for rep in range(2):
+                docs_ = [{"s": "t%dr%dn%d" % (wid, rep, i), "p": "t%dr%dn%d" % (wid, rep, i) if i % 3 else "t%d.*n%d" % (wid, i), "q": "^zz%d_%d_%d" % (wid, rep, i)} for i in range(120)]
+                for q in queries:
+                    try:
+                        got = q.findall(docs_)
+                    except jsonpath.JSONPathError:
+                        continue
+                    except BaseException as e:  # noqa: BLE001
+                        errors.append({"query": str(q), "thread": wid, "error": "%s: %s" % (type(e).__name__, str(e)[:160])})
+                        return
+                    if len(got) != len(docs_):
+                        errors.append({"query": str(q), "thread": wid, "error": "wrong-result: %d of %d selected" % (len(got), len(docs_))})
+                        return
+        st = stress(worker2, nthreads=8, files=("match.py", "search.py"), seed=r.random(), prob=0.05)
+        ctx.evaluation(8 * 2 * 4)
+        ctx.count("filters_with_hundreds_of_distinct_patterns_under_threads", 8 * 2 * 4)
+        ctx.count("yields_injected", st["yields"])
+        for e in errors[:2]:
+            ctx.violation("foreign-exception-escaped-under-threads:%s" % e["error"].split(":")[0], {"kind": "threads"}, e)
+        if errors:
+            return
 
 
 def run_workload(spec, ctx):
